@@ -39,8 +39,8 @@ def _clean(ex, s):
     s = _sub(ex, 'R2-innerdoc', r'(?m)^//!.*\n', '', s)
     s = _sub(ex, 'R2-innerattr', r'(?m)^#!\[.*\n', '', s)
     s = _sub(ex, 'R2-tests', r'(?ms)^#\[cfg\(test\)\].*', '', s)
-    s = _sub(ex, 'R2-display', r'(?ms)^impl fmt::Display for Error \{.*?^}\n', '', s)
-    s = _sub(ex, 'R2-debug', r'(?ms)^impl fmt::Debug for \w+ \{.*?^}\n', '', s)
+    s = _sub(ex, 'R2-display', r'(?ms)^impl(?:<[^>{]*>)? (?:core::|std::)?fmt::Display for [^{]+\{.*?^}\n', '', s)
+    s = _sub(ex, 'R2-debug', r'(?ms)^impl(?:<[^>{]*>)? (?:core::|std::)?fmt::Debug for [^{]+\{.*?^}\n', '', s)
     s = _sub(ex, 'R2-debug', r"(?ms)^impl Debug for Builder<'_> \{.*?^}\n", '', s)
     n = s.count('impl core::error::Error for Error {}')
     ex.counts['R2-errortrait'] = ex.counts.get('R2-errortrait', 0) + n
@@ -119,6 +119,37 @@ def _wrap(name, body, src):
     return 'pub mod %s {\n//@@SRC %s\nuse vstd::prelude::*;\nverus! {\n%s\n} // verus!\n}\n' % (name, src, body)
 
 
+R24_TRAITS = r'(?:CryptoResolver|Cipher|Hash|Dh|Random|Kem)'
+
+
+def known_impls():
+    p = os.path.join(os.path.dirname(os.path.dirname(os.path.abspath(__file__))), 'contracts', 'known_impls.txt')
+    if not os.path.exists(p):
+        return None
+    return {l.strip() for l in open(p) if l.strip() and not l.startswith('#')}
+
+
+def impl_headers(text):
+    return [re.sub(r'\s+', ' ', m.group(1)).strip() for m in re.finditer(r'(?m)^(impl(?:<[^>{]*>)?\s+(?:[\w:]+::)?%s\s+for\s+[^{]+?)\s*\{' % R24_TRAITS, text)]
+
+
+def externalise_unknown_impls(ex):
+    """R24: an implementation of one of the primitive traits that the contracts do not know (not in
+    contracts/known_impls.txt) stays outside the verified text; for its objects the trait contract is an assumption, as for
+    any custom resolver.  (A new impl cannot supply the ghost members of the trait contract, and Verus rejects the crate.)"""
+    known = known_impls()
+    if known is None:
+        return
+    def repl(m):
+        h = re.sub(r'\s+', ' ', m.group(1)).strip()
+        if h in known:
+            return m.group(0)
+        ex.counts['R24'] = ex.counts.get('R24', 0) + 1
+        ex.dropped.append('R24: `%s` is not an implementation the contracts know: left outside the verified text (#[verifier::external]); the trait contract is ASSUMED for its objects' % h)
+        return '#[verifier::external] /*R24*/\n' + m.group(0)
+    ex.text = re.sub(r'(?m)^(impl(?:<[^>{]*>)?\s+(?:[\w:]+::)?%s\s+for\s+[^{]+?)\s*\{' % R24_TRAITS, repl, ex.text)
+
+
 def extract(repo):
     ex = Extracted()
 
@@ -151,7 +182,10 @@ def extract(repo):
         raise AnchorLost('R7: pattern_enum! invocation not found')
     variants = [v.strip() for v in re.sub(r'//.*', '', m.group(1)).replace('\n', ' ').split(',') if v.strip()]
     ex.counts['R7-variants'] = len(variants)
-    enum = ('#[allow(missing_docs)]\n#[derive(Copy, Clone, PartialEq, Debug)]\npub enum HandshakePattern {\n'
+    # the derive list is taken from the macro definition (default: the one of the pinned tree)
+    dm = re.search(r'(?ms)^macro_rules! pattern_enum \{.*?#\[derive\(([^)]*)\)\]\s*\n\s*pub enum \$name', pp)
+    derives = dm.group(1) if dm else 'Copy, Clone, PartialEq, Debug'
+    enum = ('#[allow(missing_docs)]\n#[derive(' + derives + ')]\npub enum HandshakePattern {\n'
             + ',\n'.join(variants) + ',\n}\n'
             + "#[verifier::external]\npub const SUPPORTED_HANDSHAKE_PATTERNS: &'static [HandshakePattern] = &["
             + ','.join('HandshakePattern::' + v for v in variants) + '];\n'
@@ -235,6 +269,7 @@ impl CryptoResolver for DefaultResolver {
         'resolvers/default.rs and resolvers/ring.rs are not part of the core unit (separate wrapper unit, R16)',
         'lib.rs doc tests, examples/, benches/, hfuzz/',
     ]
+    externalise_unknown_impls(ex)
     return ex
 
 
@@ -334,11 +369,13 @@ def extract_wrappers(repo, root, which='default'):
                       'the ring crate is replaced by stub modules with ASSUMED contracts (spec/deps/ring.rs)',
                       'R12r: the rand_core glue of RingRng (impl RngCore / CryptoRng) is dropped: NOT verified; RingRng is only seen through trait Random (R5w)',
                       'struct fields stay private; the wrappers carry Verus type invariants (key/context algorithm)']
+        externalise_unknown_impls(ex)
         return ex
     ex.dropped = ['wrapper unit: only constants, error, types, params choices, resolvers/mod.rs, resolvers/default.rs are in this unit',
                   'third-party crates replaced by stub modules with ASSUMED contracts (spec/deps/*.rs)',
                   'P-256, XChaChaPoly, Kyber wrappers are compiled out (cfg) in the default configuration',
                   'R23: the default body of Dh::dh_len (types.rs) is materialised in every impl Dh that does not override it']
+    externalise_unknown_impls(ex)
     return ex
 
 
